@@ -4,6 +4,7 @@ import (
 	"go/ast"
 	"go/token"
 	"go/types"
+	"strings"
 
 	"gbcheck/internal/prog"
 )
@@ -31,6 +32,8 @@ func init() {
 			{"C01.R6", "q", "incr flag constant agreement", c01r6},
 			{"C01.R7", "q", "every client revision arbitrated", c01r7},
 			{"C01.R9", "q", "explicit revisions compared by absolute value", c01r9},
+			{"C01.R10", "q", "tree item carries the key hash, position, version and value hash it was given", c01r10},
+			{"C09.R7", "q", "shared: positions resolve to (chunk, offset); header sizes are actual sizes", c09r7},
 			{"C04.L5", "q", "shared: flush writes the file before detaching from the buffer", c04l5},
 			{"C01.R8", "t", "discovery: every caller of HTree.set/hintMgr.set passes a position from an append, a lookup or a hint item", c01r8},
 		},
@@ -731,5 +734,114 @@ func c01r9(c *Ctx) {
 	}
 	if n == 0 {
 		c.undec(R, f.Key, "no rejecting return found")
+	}
+}
+
+func c01r10(c *Ctx) {
+	const R = "C01.R10"
+	if f := c.fn(R, kHTreeSet); f != nil {
+		info := f.Info()
+		ki, meta, pos := f.Param(0), f.Param(1), f.Param(2)
+		ok := false
+		ast.Inspect(f.Decl.Body, func(x ast.Node) bool {
+			cl, isC := x.(*ast.CompositeLit)
+			if !isC || len(cl.Elts) != 4 {
+				return true
+			}
+			if t := info.TypeOf(cl); t == nil || !strings.HasSuffix(t.String(), "HTreeItem") {
+				return true
+			}
+			e := cl.Elts
+			k0, _ := prog.FieldOf(info, e[0])
+			k2, _ := prog.FieldOf(info, e[2])
+			k3, _ := prog.FieldOf(info, e[3])
+			if k0 == "store.KeyInfo.KeyHash" && prog.RootObj(info, e[0]) == ki && prog.ObjOf(info, e[1]) == pos && k2 == "store.Meta.Ver" && prog.RootObj(info, e[2]) == meta && k3 == "store.Meta.ValueHash" && prog.RootObj(info, e[3]) == meta {
+				ok = true
+			}
+			return true
+		})
+		c.check(ok, R, f.Key+": item = {ki.KeyHash, pos, meta.Ver, meta.ValueHash}", f.Pos(), "all four from the arguments", "the tree item built by HTree.set does not carry the key hash, position, version and value hash it was handed")
+		c.check(len(f.CallsTo("store.HTree.setReq")) == 1, R, f.Key+": stored through setReq", f.Pos(), "setReq(&req)", "HTree.set no longer stores the item")
+	}
+	if f := c.fn(R, "store.HTree.get"); f != nil {
+		info := f.Info()
+		meta, pos, found := f.Result(0), f.Result(1), f.Result(2)
+		okPos, okFound, okMeta := false, false, false
+		ast.Inspect(f.Decl.Body, func(x ast.Node) bool {
+			as, isA := x.(*ast.AssignStmt)
+			if !isA || len(as.Lhs) != 1 {
+				return true
+			}
+			switch prog.ObjOf(info, as.Lhs[0]) {
+			case pos:
+				if k, _ := prog.FieldOf(info, as.Rhs[0]); strings.HasSuffix(k, ".Pos") {
+					okPos = true
+				}
+			case found:
+				if call, isC := prog.Unparen(as.Rhs[0]).(*ast.CallExpr); isC && prog.CalleeKey(info, call) == "store.HTree.getReq" {
+					okFound = true
+				}
+			case meta:
+				// &Meta{0, 0, item.Ver, item.Vhash, 0}
+				ast.Inspect(as.Rhs[0], func(y ast.Node) bool {
+					if cl, isC := y.(*ast.CompositeLit); isC && len(cl.Elts) == 5 {
+						k2, _ := prog.FieldOf(info, cl.Elts[2])
+						k3, _ := prog.FieldOf(info, cl.Elts[3])
+						if strings.HasSuffix(k2, ".Ver") && strings.HasSuffix(k3, ".Vhash") {
+							okMeta = true
+						}
+					}
+					return true
+				})
+			}
+			return true
+		})
+		c.check(okPos && okFound && okMeta, R, f.Key+": returns the stored item's position, version and value hash", f.Pos(), "pos = item.Pos; meta = {Ver, Vhash}", "HTree.get does not hand back the position / version / value hash of the stored item")
+	}
+	if f := c.fn(R, "store.Payload.CalcValueHash"); f != nil {
+		info := f.Info()
+		ok := false
+		ast.Inspect(f.Decl.Body, func(x ast.Node) bool {
+			if as, isA := x.(*ast.AssignStmt); isA && len(as.Lhs) == 1 && prog.IsField(info, "store.Meta.ValueHash")(as.Lhs[0]) {
+				if call, isC := prog.Unparen(as.Rhs[0]).(*ast.CallExpr); isC && prog.CalleeKey(info, call) == "store.Getvhash" && prog.MentionsField(info, call.Args[0], "cmem.CArray.Body") {
+					ok = true
+				}
+			}
+			return true
+		})
+		c.check(ok, R, f.Key+": ValueHash = Getvhash(p.Body)", f.Pos(), "hash of the payload's own body", "CalcValueHash no longer stores the hash of the payload's body")
+	}
+	if f := c.fn(R, "gobeansdb.StorageClient.Delete"); f != nil {
+		info := f.Info()
+		sets := f.CallsTo("store.HStore.Set")
+		ok := false
+		for _, s := range sets {
+			for _, src := range f.SourcesAt(s.Expr.Args[1], s.Expr) {
+				if src.Kind == "call" && src.Key == "store.GetPayloadForDelete" {
+					ok = true
+				}
+			}
+		}
+		c.check(ok, R, f.Key+": delete = set of the delete payload", f.Pos(), "hstore.Set(ki, GetPayloadForDelete())", "Delete no longer writes the tombstone payload")
+		// NOT_FOUND ⇒ (false, nil)
+		nf := false
+		ast.Inspect(f.Decl.Body, func(x ast.Node) bool {
+			if is, isI := x.(*ast.IfStmt); isI {
+				ast.Inspect(is.Cond, func(y ast.Node) bool {
+					if v, isS := y.(*ast.BasicLit); isS && v.Value == `"NOT_FOUND"` {
+						for _, st := range is.Body.List {
+							if rs, isR := st.(*ast.ReturnStmt); isR && len(rs.Results) == 2 {
+								if b, isC := prog.ConstBool(info, rs.Results[0]); isC && !b && prog.IsNil(info, rs.Results[1]) {
+									nf = true
+								}
+							}
+						}
+					}
+					return true
+				})
+			}
+			return true
+		})
+		c.check(nf, R, f.Key+": deleting a missing key reports not-found, not an error", f.Pos(), `"NOT_FOUND" ⇒ (false, nil)`, "the NOT_FOUND outcome of a delete is no longer mapped to (false, nil): deleting a missing key yields SERVER_ERROR or DELETED")
 	}
 }
